@@ -26,6 +26,19 @@ type NamedEnv struct {
 	A   int
 }
 
+// pointers to scalars: every operator the checker accepts on them must work
+type PtrEnv struct {
+	PI, PI2, NilPI *int
+	PS, PS2        *string
+	PF             *float64
+	PB             *bool
+	A              int
+	S              string
+	PInts          *[]int
+	PArr           *[2]int
+	PMap           *map[string]int
+}
+
 var (
 	int64T   = reflect.TypeOf(int64(0))
 	float64T = reflect.TypeOf(float64(0))
@@ -96,7 +109,11 @@ func c03Sound(c *runner.Ctx, src string, styles []int, seeds []uint64, tag strin
 			if dt := reflect.TypeOf(o.Val); dt != ct {
 				cas["checker_type"] = ct.String()
 				cas["dynamic_type"] = dt.String()
-				c.Violate(c03ResultSig(ct, dt), fmt.Sprintf("the checker reported %v, the run returned %v", ct, dt), cas)
+				sig := c03ResultSig(ct, dt)
+				if tag == "mixed-arith:" {
+					sig = "mixed-arith:result-type"
+				}
+				c.Violate(sig, fmt.Sprintf("the checker reported %v, the run returned %v", ct, dt), cas)
 				return
 			}
 			c.Count("dynamic_type_equals_static", 1)
@@ -351,6 +368,11 @@ func c03Sites(t *term.Term, r *runner.Rng) []c03Site {
 					at := n.Sub[ai].T
 					var bad *term.Term
 					switch {
+					case term.IsNum(at) && (at.Kind() == reflect.Float64 || at.Kind() == reflect.Float32) && g.R.Bool():
+						// an int-typed expression that is neither a literal nor
+						// + - * / arithmetic is not adapted to a float parameter
+						bad = []*term.Term{rawBin("%", rawID("A"), term.Int(2)), rawBin("%", term.Int(7), term.Int(2)), rawID("A"), rawLen(rawID("Ints")), rawIndex(rawID("Ints"), term.Int(0)),
+							rawCall("FnI", term.Int(1)), rawID("I64"), rawID("U8")}[g.R.Intn(8)]
 					case term.IsNum(at):
 						bad = g.Of([]reflect.Type{term.StrT, term.BoolT, term.IntsT}[g.R.Intn(3)], 1+g.R.Intn(3))
 					case term.IsStr(at), term.IsBool(at):
@@ -378,6 +400,43 @@ func c03Sites(t *term.Term, r *runner.Rng) []c03Site {
 					sub := append([]*term.Term{}, n.Sub...)
 					sub[ai] = bad
 					return rawCopy(n, sub...)
+				}})
+			}
+		case term.KIndex:
+			if ot := x.Sub[0].T; ot != nil && !term.IsAny(ot) {
+				switch ot.Kind() {
+				case reflect.Slice, reflect.Array:
+					if ot.Elem().Kind() == reflect.Interface && r.Bool() {
+						// recorded finding: a string index into a sequence of
+						// dynamic values is accepted (pinned by TestCheck)
+						sites = append(sites, c03Site{n, "string-index-into-sequence-of-dynamic-values", func(g *term.Gen) *term.Term {
+							return rawCopy(n, n.Sub[0], g.Of(term.StrT, 1+g.R.Intn(2)))
+						}})
+					} else {
+						wrong := []reflect.Type{term.StrT, term.BoolT, term.FloatT, term.IntsT}
+						if ot.Elem().Kind() == reflect.Interface {
+							wrong = wrong[1:]
+						}
+						sites = append(sites, c03Site{n, "index-of-wrong-type(sequence)", func(g *term.Gen) *term.Term {
+							return rawCopy(n, n.Sub[0], g.Of(wrong[g.R.Intn(len(wrong))], 1+g.R.Intn(3)))
+						}})
+					}
+				case reflect.Map:
+					if ot.Key().Kind() == reflect.String {
+						sites = append(sites, c03Site{n, "index-of-wrong-type(map)", func(g *term.Gen) *term.Term {
+							return rawCopy(n, n.Sub[0], g.Of([]reflect.Type{term.IntT, term.BoolT, term.FloatT, term.IntsT}[g.R.Intn(4)], 1+g.R.Intn(3)))
+						}})
+					}
+				}
+			}
+		case term.KSlice:
+			if x.Sub[1] != nil || x.Sub[2] != nil {
+				sites = append(sites, c03Site{n, "non-integer-slice-bound", func(g *term.Gen) *term.Term {
+					bad := g.Of([]reflect.Type{term.StrT, term.BoolT, term.FloatT}[g.R.Intn(3)], 1+g.R.Intn(3))
+					if n.Sub[1] != nil && (n.Sub[2] == nil || g.R.Bool()) {
+						return rawCopy(n, n.Sub[0], bad, n.Sub[2])
+					}
+					return rawCopy(n, n.Sub[0], n.Sub[1], bad)
 				}})
 			}
 		case term.KCond:
@@ -439,6 +498,69 @@ func init() {
 						c03Sound(c, term.Print(t, term.PrintOpts{}), styles, seeds, "", t.HasConstDivZero())
 					}
 				}
+			}},
+			{Name: "mixed-numeric-arms", N: func(tier string) uint64 {
+				if tier == "thorough" {
+					return 150000
+				}
+				return 5000
+			}, Run: func(c *runner.Ctx, idx uint64) {
+				// every leaf is statically typed, but the arms of a conditional
+				// (or the elements of a literal) have different numeric kinds:
+				// whatever type the checker reports for such an expression must
+				// be the type of the value, and no operator applied to it may
+				// fail for a type reason
+				r := c.R
+				nums := []string{"U", "U8", "U16", "U32", "U64", "I", "I8", "I16", "I32", "I64", "F32", "F64", "A", "X", "1", "2.5", "Ints[0]", "It.ID", "It.Score", "len(Ints)", "FnI(1)", "FnF(1.5)"}
+				var mixed func(d int) string
+				mixed = func(d int) string {
+					a, b := r.Pick(nums), r.Pick(nums)
+					if d > 0 && r.Chance(1, 3) {
+						a = mixed(d - 1)
+					}
+					switch r.Intn(5) {
+					case 0:
+						return fmt.Sprintf("[%s, %s][%d]", a, b, r.Intn(2))
+					default:
+						return fmt.Sprintf("(%s ? %s : %s)", r.Pick([]string{"P", "Q", "true", "false", "A > 1"}), a, b)
+					}
+				}
+				m := mixed(2)
+				var src string
+				tag := ""
+				cmp := []string{"==", "!=", "<", ">="}
+				arith := []string{"+", "-", "*", "/", "**"}
+				switch r.Intn(10) {
+				case 0:
+					src = m
+				case 1:
+					src = fmt.Sprintf("%s %s %s", m, r.Pick(cmp), r.Pick(nums))
+				case 2:
+					src = fmt.Sprintf("%s %s %s", r.Pick(nums), r.Pick(cmp), m)
+				case 3:
+					if r.Bool() {
+						src = fmt.Sprintf("%s %s %s", m, r.Pick(cmp), mixed(1))
+					} else {
+						src, tag = fmt.Sprintf("%s %s %s", m, r.Pick(arith), mixed(1)), "mixed-arith:"
+					}
+				case 4:
+					src = "-" + m
+				case 5:
+					src = fmt.Sprintf("%s in [1, 2, 3]", m)
+				case 6:
+					src = fmt.Sprintf("%s in 1..3", m)
+				case 7:
+					src = fmt.Sprintf("[%s, %s]", m, r.Pick(nums))
+				case 8:
+					// recorded finding: arithmetic between a dynamically typed
+					// operand and a typed one is given the typed operand's type
+					src, tag = fmt.Sprintf("%s %s %s", m, r.Pick(arith), r.Pick(nums)), "mixed-arith:"
+				default:
+					src, tag = fmt.Sprintf("%s %s %s", r.Pick(nums), r.Pick(arith), m), "mixed-arith:"
+				}
+				styles, seeds := EnvStyles(r, 4)
+				c.Count("mixed_arm_cases", 1)
+				c03Sound(c, src, styles, seeds, tag, false)
 			}},
 			{Name: "random", N: func(tier string) uint64 {
 				if tier == "thorough" {
@@ -564,8 +686,40 @@ func c03Corpus(c *runner.Ctx, idx uint64) {
 				map[string]interface{}{"source": src, "environment": "struct{MyI MyInt; MyS MyStr; A int}", "run": o.String()})
 		}
 	}
+	// pointers to scalars and to collections
+	one, two, str, str2, fl, bl := 1, 1, "a", "a", 1.5, true
+	ints, arr, mp := []int{1, 2}, [2]int{1, 2}, map[string]int{"a": 1}
+	pe := PtrEnv{PI: &one, PI2: &two, PS: &str, PS2: &str2, PF: &fl, PB: &bl, A: 1, S: "a", PInts: &ints, PArr: &arr, PMap: &mp}
+	for _, src := range []string{"PI == PI2", "PI != PI2", "PI == A", "A == PI", "PI == 1", "PI == nil", "NilPI == nil", "PI == NilPI", "PS == PS2", "PS == S", "PS == \"a\"", "PS != nil", "PF == PF", "PF == 1.5", "PB == PB",
+		"PI + 1", "PI < PI2", "-PI", "PS + \"b\"", "PS contains \"a\"", "PS matches \"a\"", "PI in [1, 2]", "PS in [\"a\"]", "PI in 1..3", "not PB", "PB and PB", "PB ? 1 : 2", "PB == true", "len(PS)", "len(PInts)", "PInts[0]", "PInts[0:1]",
+		"PArr[0]", "len(PArr)", "PMap.a", "PMap[\"a\"]", "\"a\" in PMap", "1 in PInts", "map(PInts, {# + 1})", "all(PArr, {# > 0})", "[PI, PS]", "PI ?: 1", "FnAny(PI)", "PI == PI ? PS : PS2"} {
+		c.Begin("ptr-env: " + src)
+		p, co := SafeCompile(src, expr.Env(PtrEnv{}))
+		c.Eval(1)
+		if co.Panic != nil {
+			c.Violate("compile-panic", fmt.Sprint(co.Panic), map[string]interface{}{"source": src, "environment": "PtrEnv"})
+			continue
+		}
+		if co.Failed() {
+			c.Count("pointer_scalar_rejected", 1)
+			continue
+		}
+		c.Distinct("ptr|" + src)
+		o := SafeRun(p, pe)
+		c.Eval(1)
+		if o.Panic != nil {
+			c.Violate("run-panic", fmt.Sprint(o.Panic), map[string]interface{}{"source": src})
+		} else if o.Err != nil && ClassifyRunErr(o.Err) == ClsType {
+			c.Violate("corpus:pointer-operand:type-failure:"+src, "an expression over pointers to scalars/collections is accepted and fails for a type reason: "+firstLine(o.Err.Error()),
+				map[string]interface{}{"source": src, "environment": "PtrEnv (all pointers non-nil except NilPI)", "run": o.String()})
+		} else {
+			c.Count("pointer_operand_runs", 1)
+		}
+	}
 	// mutants of the classes the repaired defects belonged to
-	for _, src := range []string{"FnS(1)", "FnI(X + X)", "FnI(S + S)", "FnS(1 + 2)", "FnB(-1)", "FnItem(3)", "FnS(-A)", "FnI(X * 2)", "P ? 1 : 2 + S", "1 + \"a\"", "not 1", "len(1)", "all(A, {true})", "filter(Ints, {1})", "Missing + 1", "It.Nope", "It.Nope()", "FnI()", "FnI(1, 2)", "A ? 1 : 2", "\"a\" < 1", "S and P", "1 .. 2.5"} {
+	for _, src := range []string{"FnS(1)", "FnI(X + X)", "FnI(S + S)", "FnS(1 + 2)", "FnB(-1)", "FnItem(3)", "FnS(-A)", "FnI(X * 2)", "P ? 1 : 2 + S", "1 + \"a\"", "not 1", "len(1)", "all(A, {true})", "filter(Ints, {1})", "Missing + 1", "It.Nope", "It.Nope()", "FnI()", "FnI(1, 2)", "A ? 1 : 2", "\"a\" < 1", "S and P", "1 .. 2.5",
+		"Ints[\"a\"]", "Ints[S]", "Strs[X]", "Items[P].ID", "MI[1]", "MI[A]", "MI[P]", "Ints[\"a\":]", "Ints[:X]", "(1..3)[S]", "Anys[P]", "[1, 2][1.5]",
+		"Half(A % 2)", "Half(7 % 2)", "FnF(A)", "FnF(len(Ints))", "FnF32(I64)", "FnI(X)", "FnI64(X * 2)", "FnU8(S)"} {
 		c.Begin(src)
 		_, co := SafeCompile(src, expr.Env(envs.Env{}))
 		c.Eval(1)
